@@ -13,8 +13,8 @@ cd $W
 export OPENMDAO_REPORTS=0
 echo "prop=$P n=$N" >> $R
 timeout 600 /venv/bin/python $SRC/demo.py > /tmp/confirm/${P}_$N.demo_without.log 2>&1; echo "demo_without=$?" >> $R
-if git apply --check $SRC/patch.diff 2>/dev/null; then
-  git apply $SRC/patch.diff; echo "apply=ok" >> $R
+if git apply --check ${PATCHFILE:-$SRC/patch.diff} 2>/dev/null; then
+  git apply ${PATCHFILE:-$SRC/patch.diff}; echo "apply=ok" >> $R
 else
   echo "apply=conflict" >> $R; cd /; git -C /repo worktree remove --force $W; exit 0
 fi
